@@ -22,6 +22,8 @@ int ref_opus_projection_decoder_ctl(OpusProjectionDecoder* st, int request, ...)
 void ref_opus_projection_decoder_destroy(OpusProjectionDecoder* st);
 }
 
+extern "C" int opus_verif_arch_cap;
+
 namespace {
 
 enum Kind { SINGLE = 0, MULTI = 1, PROJ = 2 };
@@ -111,6 +113,10 @@ int vp_case(Choice& c, Report& rep) {
   static const int KW[] = {7, 2, 1};
   Kind kind = (Kind)c.weighted(KW, 3);
   cu::EncCfg e = cu::gen_cfg(c);
+  // RTCD level for every object of this case (hook XIPH_OPUS_VERIF): mostly uncapped, otherwise one of the five levels
+  struct CapGuard { ~CapGuard() { opus_verif_arch_cap = 255; } } cap_guard;
+  // (derived from a hash of the case bytes instead of a new choice, so that committed replay cases keep their meaning)
+  { int cs = (int)(fnv1a(c.d, c.n) % 12); opus_verif_arch_cap = cs < 7 ? 255 : cs - 7; rep.labelf("arch-cap:%d", opus_verif_arch_cap); }
   // class "high-rate speech layer, long frames": per-frame budgets near the 1275-byte frame limit
   bool stress_silk = c.chance(24);
   if (stress_silk) {
